@@ -169,4 +169,15 @@ PROPS["C06"] = {
     "claimed": False,
 }
 
+PROPS["C03"] = {
+    "imports": VIEW_IMPORTS, "prelude": "Definition cfg := Cfg{TAG}.cfg.",
+    "level_text": "TODO", "level_note": "TODO", "trusted_base": COMMON_TB + ["dis / co_lines / PyCode_Addr2Line of the running interpreter as readers of the emitted code"],
+    "assumptions": ["line_number is not None on <= 3.9 (the co_lnotab format cannot express 'no line'; to_code raises TypeError there)"],
+    "rule": "hand-built block graphs without override fields: 1-7 blocks of 1-260 instructions, absolute jumps in both directions, forward relative jumps, name tables of 3-300 (thorough 70000) entries, "
+            "constants with colliding Python values (1/True/1.0, 0.0/-0.0, 'a'/b'a'), lines with deltas around +-127/128/255/300 and None (3.10), all signature shapes; plus gap / collision / negative overrides; "
+            "distinct = distinct generated data",
+    "replay_hint": "regenerate with harness/props/C03.py gen_data(random.Random('C03-<seed>-<ver>'), quick) at data.index",
+    "claimed": False,
+}
+
 NOT_CLAIMED = {}
